@@ -98,7 +98,7 @@ def IsOwner (src : Source) (kinds : List Kind) (ids : List Nat) (c : Child) (a b
   c ∈ src.children ∧ kinds.contains c.kind = true ∧
     hullOf ((pickGcs ids c).map fun g => (g.start, g.stop)) = some (a, b)
 
-def reducedM (ids : List Nat) (c : Child) (a b : Int) : Child := { c with gcs := pickGcs ids c, start := a, stop := b }
+def reducedM (ids : List Nat) (c : Child) (a b : Int) : Child := { c with gcs := pickM ids c, start := a, stop := b }
 def reducedS (ids : List Nat) (c : Child) (a b : Int) : Child := { c with gcs := filterGcs ids c, start := a, stop := b }
 
 theorem mem_keptS (src : Source) (gw : GcWF src) (kinds : List Kind) (ids : List Nat) (hids : ids.Nodup) (y : Child) :
@@ -188,11 +188,8 @@ theorem mem_keptM (src : Source) (wf : SrcWF src) (gw : GcWF src) (kinds : List 
 
 /-! ### the interval-GUID queries meet their specification -/
 
-theorem pick_sub (ids : List Nat) (c : Child) (x : GChild) (hx : x ∈ pickGcs ids c) : x ∈ c.gcs := by
-  unfold pickGcs at hx
-  rw [List.mem_filterMap] at hx
-  obtain ⟨k, _, hd⟩ := hx
-  exact (dictGet_some _ _ _ _ hd).1
+theorem pickM_sub (ids : List Nat) (c : Child) (x : GChild) (hx : x ∈ pickM ids c) : x ∈ c.gcs :=
+  pick_sub ids c x ((pickM_perm_pick ids c).mem_iff.mp hx)
 
 /-- the hull of a sub-list lies inside the hull of the list -/
 theorem hull_sub {l sub : List (Int × Int)} {a b A B : Int} (hs : ∀ p ∈ sub, p ∈ l)
@@ -256,12 +253,11 @@ theorem keptM_guids_nodup (src : Source) (kinds : List Kind) (ids : List Nat) :
 
 /-- T3c: `query_by_interval_guids` (kinds = all), `query_by_transcript_interval_guids`, `query_by_feature_interval_guids`:
     exactly the children of a requested kind that own a requested grandchild, each reduced to its requested
-    grandchildren (span = their hull).  Genes and feature collections; variant collections rest on the
-    correspondence run (`hnv`). -/
+    grandchildren (span = their hull).  Genes, feature collections and variant collections (`hvar`: the variants
+    of a collection are listed by start, pairwise disjoint and non-empty, as its constructor establishes). -/
 theorem queryByIntervalGuids_meets (src : Source) (wf : SrcWF src) (gw : GcWF src) (kinds : List Kind)
-    (ids : List Nat) (hids : ids.Nodup) (hnv : ∀ c ∈ src.children, c.kind ≠ .var) (bs be : Int)
-    (hb : selfBounds src = some (bs, be)) (hne : src.par.hasSeq = true → bs < be)
-    (hin : src.par.hasSeq = true → IdDomain src bs be src.children) :
+    (ids : List Nat) (hids : ids.Nodup) (hvar : ∀ c ∈ src.children, c.kind = .var → VarOK c) (bs be : Int)
+    (hb : selfBounds src = some (bs, be)) (hW : WholeBoundsOK src) :
     okQueryByIntervalGuids src kinds ids (toAns (queryByIntervalGuids src kinds ids)) = true := by
   have hndI : ((iterChildren src).map Child.guid).Nodup :=
     (((iterChildren_perm src).map Child.guid).nodup_iff).mpr wf.guids
@@ -276,7 +272,7 @@ theorem queryByIntervalGuids_meets (src : Source) (wf : SrcWF src) (gw : GcWF sr
     · unfold ownerStep
       rw [← hcg, dictGet_of_mem _ _ hndI c (mem_iterChildren.mpr hc)]
       simp only [bind, Except.bind]
-      rw [childQueryByGuids_some src.par c ids (hnv c hc) (gw.nodup c hc) hids a b hh]
+      rw [childQueryByGuids_some src.par c ids (hvar c hc) (gw.nodup c hc) hids a b hh]
       rfl
     · rw [← hcg]; exact stepF_of src wf ids c hc a b hh
   unfold okQueryByIntervalGuids queryByIntervalGuids
@@ -285,9 +281,9 @@ theorem queryByIntervalGuids_meets (src : Source) (wf : SrcWF src) (gw : GcWF sr
   simp only []
   -- facts about owners
   have hown : ∀ c a b, IsOwner src kinds ids c a b →
-      (∀ x ∈ pickGcs ids c, x ∈ c.gcs) ∧ c.start ≤ a ∧ b ≤ c.stop := by
+      (∀ x ∈ pickM ids c, x ∈ c.gcs) ∧ c.start ≤ a ∧ b ≤ c.stop := by
     intro c a b ⟨hc, _, hh⟩
-    refine ⟨fun x hx => pick_sub ids c x hx, ?_⟩
+    refine ⟨fun x hx => pickM_sub ids c x hx, ?_⟩
     exact hull_sub (l := c.gcs.map fun g => (g.start, g.stop))
       (fun p hp => by
         obtain ⟨x, hx, rfl⟩ := List.mem_map.mp hp
@@ -299,8 +295,11 @@ theorem queryByIntervalGuids_meets (src : Source) (wf : SrcWF src) (gw : GcWF sr
     intro y hy
     have := (mem_keptM src wf gw kinds ids y).mp hy
     obtain ⟨c, a, b, ho, rfl⟩ := this
-    refine ⟨ho.2.2, fun g hg => ?_⟩
-    exact (wf.hull c ho.1).2 g ((hown c a b ho).1 g hg)
+    refine ⟨?_, fun g hg => ?_⟩
+    · have := hullOf_perm ((pickM_perm_pick ids c).map fun g => (g.start, g.stop))
+      simp only [reducedM]
+      rw [this]; exact ho.2.2
+    · exact (wf.hull c ho.1).2 g ((hown c a b ho).1 g hg)
   · -- spans
     have hp := perm_of_char _ (keptByIntervalGuids src kinds ids)
       (fun c => (c.guid, (c.start, c.stop))) (fun c => (c.guid, (c.start, c.stop))) Prod.fst hM hS
@@ -327,8 +326,8 @@ theorem queryByIntervalGuids_meets (src : Source) (wf : SrcWF src) (gw : GcWF sr
         (liftChildP rp (reducedM ids c a b)).norm = (expectChild rp' (reducedS ids c a b)).norm := by
       intro c a b ho
       have hc := ho.1
-      exact reduced_norm_eq rp rp' hrp c (pickGcs ids c) (filterGcs ids c) a b
-        (pickGcs_perm ids c (gw.nodup c hc) hids)
+      exact reduced_norm_eq rp rp' hrp c (pickM ids c) (filterGcs ids c) a b
+        ((pickM_perm_pick ids c).trans (pickGcs_perm ids c (gw.nodup c hc) hids))
         (by
           have hg := gw.nodup c hc
           unfold filterGcs
@@ -345,14 +344,10 @@ theorem queryByIntervalGuids_meets (src : Source) (wf : SrcWF src) (gw : GcWF sr
       refine ⟨reducedM ids c a b, ?_, key c a b ho⟩
       exact (mem_keptM src wf gw kinds ids (reducedM ids c a b)).mpr ⟨c, a, b, ho, rfl⟩
   · exact hS
-  · exact hne
-  · intro hs
-    refine (hin hs).imp (fun h y hy => ?_) id
+  · refine idDomain_children src wf hW bs be hb _ (fun y hy => ?_)
     obtain ⟨c, a, b, ho, rfl⟩ := (mem_keptS src gw kinds ids hids y).mp hy
-    have h1 := h c ho.1
     have h2 := (hown c a b ho).2
-    simp only [reducedS]
-    omega
+    exact ⟨c, ho.1, by simp only [reducedS]; omega, by simp only [reducedS]; omega⟩
 
 /-! ### `child.query_by_guids` observed directly -/
 
@@ -361,44 +356,43 @@ def toCAns : QR (Option RChild) → CAns
   | .ok (some r) => .some r
   | .error _ => .raised
 
-theorem toRPar_shape (src : Source) : RPShape src src.par.toRPar := by
+theorem toRPar_shape (src : Source) (wf : SrcWF src) : RPShape src src.par.toRPar := by
+  have hpar := wf.par
+  unfold ParWF at hpar
   unfold RPShape Par.toRPar
   cases hp : src.par with
   | none => trivial
   | noseq => trivial
   | whole seq => rfl
-  | chunk cs seq => exact ⟨by omega, rfl⟩
+  | chunk cs seq => rw [hp] at hpar; exact ⟨by omega, hpar.1, rfl⟩
 
-theorem srcG_eq_liftG (rp : RPar) (k : Kind) (hk : k ≠ .var) (g : GChild) : srcG rp g = liftG rp k g := by
-  unfold srcG liftG
-  cases k <;> cases rp <;> simp_all
-
-/-- T3d: `GeneInterval.query_by_guids` / `FeatureIntervalCollection.query_by_guids`: `None` iff no transcript /
-    feature is requested, else the same gene / collection (guid, identifiers) reduced to the requested ones, on the
+/-- T3d: `GeneInterval / FeatureIntervalCollection / VariantIntervalCollection.query_by_guids`: `None` iff no
+    grandchild is requested, else the same child (guid, identifiers) reduced to the requested ones, on the
     unchanged parent. -/
 theorem childQuery_meets (src : Source) (wf : SrcWF src) (gw : GcWF src) (c : Child) (hc : c ∈ src.children)
-    (hk : c.kind ≠ .var) (ids : List Nat) (hids : ids.Nodup) :
+    (hk : c.kind = .var → VarOK c) (ids : List Nat) (hids : ids.Nodup) :
     okChildQueryByGuids src c ids (toCAns (childQueryResult src c ids)) = true := by
   unfold okChildQueryByGuids childQueryResult
+  rw [checkSource_ok wf.cons]
   cases hh : hullOf ((pickGcs ids c).map fun g => (g.start, g.stop)) with
   | none =>
-    rw [reduceChild_none ids c (gw.nodup c hc) hids hh, childQueryByGuids_none src.par c ids hh]
+    rw [reduceChild_none ids c (gw.nodup c hc) hids hh]
+    simp only [bind, Except.bind]
+    rw [childQueryByGuids_none src.par c ids hh]
     rfl
   | some p =>
     obtain ⟨a, b⟩ := p
-    rw [reduceChild_some ids c (gw.nodup c hc) hids a b hh,
-      childQueryByGuids_some src.par c ids hk (gw.nodup c hc) hids a b hh]
-    simp only [bind, Except.bind, pure, Except.pure, toCAns, beq_iff_eq]
-    have e : (pickGcs ids c).map (srcG src.par.toRPar) = (pickGcs ids c).map (liftG src.par.toRPar c.kind) :=
-      List.map_congr_left (fun g _ => srcG_eq_liftG _ _ hk g)
-    rw [e]
-    exact reduced_norm_eq src.par.toRPar src.par.toRPar rfl c (pickGcs ids c) (filterGcs ids c) a b
-      (pickGcs_perm ids c (gw.nodup c hc) hids)
+    rw [reduceChild_some ids c (gw.nodup c hc) hids a b hh]
+    simp only [bind, Except.bind]
+    rw [childQueryByGuids_some src.par c ids hk (gw.nodup c hc) hids a b hh]
+    simp only [pure, Except.pure, toCAns, beq_iff_eq]
+    exact reduced_norm_eq src.par.toRPar src.par.toRPar rfl c (pickM ids c) (filterGcs ids c) a b
+      ((pickM_perm_pick ids c).trans (pickGcs_perm ids c (gw.nodup c hc) hids))
       (by
         have hg := gw.nodup c hc
         unfold filterGcs
         rw [List.nodup_iff_pairwise_ne, List.pairwise_map] at hg ⊢
         exact List.Pairwise.filter _ hg)
-      (fun x hx => gc_mseq_norm src wf _ (toRPar_shape src) c hc x (List.mem_filter.mp hx).1)
+      (fun x hx => gc_mseq_norm src wf _ (toRPar_shape src wf) c hc x (List.mem_filter.mp hx).1)
 
 end BioCantor.Proofs.Query
